@@ -1036,6 +1036,34 @@ fn gen(w: &World, seed: u64, thorough: bool) -> Vec<String> {
             texts.push(format!("0b{}", big_to_radix(&m, 1, 0)));
         }
     }
+    // ---- numbers longer than 64 bits whose leading 64 bits sit exactly on / just beside a rounding tie, with
+    //      nothing, a single lowest bit, or everything set below them (the sticky-bit cases)
+    for dropped in [1u32, 2, 3, 4, 8, 12, 64, 448, 956, 959, 960, 961] {
+        for q in [1u64 << 52, (1u64 << 52) + 1, (1u64 << 53) - 1, (1u64 << 53) - 2, (1u64 << 52) | (rng.next() & ((1u64 << 52) - 1))] {
+            for low in [0x400u64, 0x3ff, 0x401, 0x7ff, 0x000, 0x001] {
+                let mant = (q << 11) | low;
+                for tail in 0..3u32 {
+                    // the bits below the 64: all zero, only the last one set, all set
+                    let mut bits: Vec<u8> = (0..64).rev().map(|i| ((mant >> i) & 1) as u8).collect();
+                    for j in 0..dropped {
+                        bits.push(match tail { 0 => 0, 1 => (j == dropped - 1) as u8, _ => 1 });
+                    }
+                    let mut bytes = vec![0u8; (bits.len() + 7) / 8];
+                    let off = bytes.len() * 8 - bits.len();
+                    for (i, b) in bits.iter().enumerate() {
+                        if *b == 1 {
+                            bytes[(off + i) / 8] |= 1 << (7 - (off + i) % 8);
+                        }
+                    }
+                    match (dropped + tail + low as u32) % 3 {
+                        0 => texts.push(format!("0x{}", big_to_radix(&bytes, 4, 0))),
+                        1 => texts.push(format!("0{}", big_to_radix(&bytes, 3, 0))),
+                        _ => texts.push(format!("0b{}", big_to_radix(&bytes, 1, 0))),
+                    }
+                }
+            }
+        }
+    }
     // ---- fixed oddities
     for t in [
         "", " ", "+", "-", "0x", "0X", "0b", "0B", "00", "000", "0+7", "0-7", "0x-1", "0x+1", "0b+1", "0b-1", "++1", "+-1", "-+1", "--1", "0-0", "-0", "+0", " 1", "1 ",
